@@ -371,7 +371,7 @@ package mocker
 //@   ensures when_or_error: (result0 == nil) == (result1 != nil) && (result0 != nil ==> result0.funcTyp != nil && fresh(result0))
 //@   ensures too_few_returns_rejected: defaultReturns != nil && len(defaultReturns) < rt_numout(rt_of(typeof(funcDef))) ==> result1 != nil
 //@   ensures too_few_args_rejected: args != nil && len(args) + ite(isMethod, int(1), int(0)) < rt_numin(rt_of(typeof(funcDef))) ==> result1 != nil
-//@   ensures configured_for_this_function: result1 == nil ==> result0.funcTyp == rt_of(typeof(funcDef)) && result0.funcDef == funcDef && result0.isMethod == isMethod && len(result0.matches) == 0
+//@   ensures configured_for_this_function: result1 == nil ==> result0.funcTyp == rt_of(typeof(funcDef)) && result0.funcDef == funcDef && result0.isMethod == isMethod && len(result0.matches) == 0 && cap(result0.matches) == 0
 //@   ensures no_default_without_values: result1 == nil && defaultReturns == nil && rt_numout(rt_of(typeof(funcDef))) > 0 ==> result0.defaultReturns == nil
 //@   ensures default_results_stored_converted: result1 == nil && defaultReturns != nil ==> result0.defaultReturns != nil && typeof(result0.defaultReturns) == typeid(*AlwaysMatcher)
 //@     | && unbox(result0.defaultReturns, *AlwaysMatcher) != nil && unbox(result0.defaultReturns, *AlwaysMatcher).BaseMatcher != nil
@@ -398,13 +398,15 @@ package mocker
 // if the values are rejected nothing is registered.
 //@ func (w *When) Return
 //@   props C04 C05 C09 C13
-//@   requires receiver: w != nil && 0 <= len(w.matches) && len(w.matches) < 0x10000 && len(value) < 0x10000
+//@   requires receiver: w != nil && 0 <= len(w.matches) && len(w.matches) < 0x10000
+//@   assume sane_lengths: len(value) < 0x10000
 //@   requires type: w.funcTyp != nil && rt_kind(w.funcTyp) == reflect.Func
 //@   assigns w.matches, w.defaultReturns, anyfield(BaseMatcher, results), varval, w.matches[len(w.matches) : cap(w.matches)]
 //@   ensures pending_condition_registered_last: old(w.curMatch) != nil ==> len(w.matches) == old(len(w.matches)) + 1 && w.matches[len(w.matches) - 1] == old(w.curMatch) && w.defaultReturns == old(w.defaultReturns)
 //@   ensures otherwise_conditions_untouched: old(w.curMatch) == nil ==> w.matches == old(w.matches)
 //@   ensures first_default_created: old(w.curMatch) == nil && old(w.defaultReturns) == nil && value != nil ==> w.defaultReturns != nil && typeof(w.defaultReturns) == typeid(*AlwaysMatcher)
 //@   ensures existing_default_extended_not_replaced: old(w.curMatch) == nil && old(w.defaultReturns) != nil ==> w.defaultReturns == old(w.defaultReturns)
+//@   ensures registered_in_place_or_in_a_fresh_array: fresh(w.matches) || (arr(w.matches) == old(arr(w.matches)) && off(w.matches) == old(off(w.matches)) && cap(w.matches) == old(cap(w.matches)) && off(w.matches) + uintptr(len(w.matches)) >= old(off(w.matches)) + uintptr(old(len(w.matches))))
 //@   ensures same_builder: result == w && w.curMatch == old(w.curMatch)
 //@   panics_only_if values_rejected: true
 //@   ensures_on_panic nothing_registered: w.matches == old(w.matches) && w.defaultReturns == old(w.defaultReturns)
@@ -419,21 +421,40 @@ package mocker
 // When.AndReturn: one more result for the pending condition (or, without one, for the default: same as Return)
 //@ func (w *When) AndReturn
 //@   props C05 C04 C13
-//@   requires receiver: w != nil && 0 <= len(w.matches) && len(w.matches) < 0x10000 && len(value) < 0x10000
+//@   requires receiver: w != nil && 0 <= len(w.matches) && len(w.matches) < 0x10000
+//@   assume sane_lengths: len(value) < 0x10000
 //@   requires type: w.funcTyp != nil && rt_kind(w.funcTyp) == reflect.Func
 //@   assigns w.matches, w.defaultReturns, anyfield(BaseMatcher, results), varval, w.matches[len(w.matches) : cap(w.matches)]
 //@   ensures pending_condition_extended_not_reregistered: old(w.curMatch) != nil ==> w.matches == old(w.matches) && w.defaultReturns == old(w.defaultReturns)
 //@   ensures otherwise_conditions_untouched: old(w.curMatch) == nil ==> w.matches == old(w.matches)
+//@   ensures existing_default_extended_not_replaced: old(w.curMatch) == nil && old(w.defaultReturns) != nil ==> w.defaultReturns == old(w.defaultReturns)
 //@   ensures same_builder: result == w && w.curMatch == old(w.curMatch)
 //@   panics_only_if values_rejected: true
 //@   ensures_on_panic nothing_registered: w.matches == old(w.matches) && w.defaultReturns == old(w.defaultReturns)
 
-// When.Returns walks the values and calls Return / AndReturn (both under contract); its own loop is not verified (the
-// inner value lists are reached through a type assertion on []interface{}, whose lengths the contract language
-// cannot bound): TRUSTED frame
-//@ trusted func (w *When) Returns
-//@   assigns w.matches, w.defaultReturns, anyfield(BaseMatcher, results)
-//@   may_panic
+// When.Returns walks the values and hands the first to Return, every later one to AndReturn (both under contract): a
+// pending condition is registered exactly once, however many values follow; without one only the default sequence is
+// touched.  A value that is itself a []interface{} is spread, anything else is passed as the single result.
+//@ func (w *When) Returns
+//@   props C05 C04 C12 C13
+//@   requires receiver: w != nil && 0 <= len(w.matches)
+//@   requires type: w.funcTyp != nil && rt_kind(w.funcTyp) == reflect.Func
+//@   assume sane_lengths: len(w.matches) < 0xffff && len(values) < 0x10000
+//@   assigns w.matches, w.defaultReturns, anyfield(BaseMatcher, results), varval, w.matches[len(w.matches) : cap(w.matches)]
+//@   invariant loop 1 registered_once_so_far: 0 <= rangeindex + 1 && rangeindex + 1 <= len(values) && w.curMatch == old(w.curMatch) && 0 <= len(w.matches) && len(w.matches) <= old(len(w.matches)) + 1
+//@     | && (rangeindex + 1 == 0 ==> w.matches == old(w.matches) && w.defaultReturns == old(w.defaultReturns))
+//@     | && (old(w.curMatch) == nil ==> w.matches == old(w.matches))
+//@     | && (old(w.curMatch) == nil && old(w.defaultReturns) != nil ==> w.defaultReturns == old(w.defaultReturns))
+//@     | && (old(w.curMatch) != nil ==> w.defaultReturns == old(w.defaultReturns))
+//@     | && (old(w.curMatch) != nil && rangeindex + 1 > 0 ==> len(w.matches) == old(len(w.matches)) + 1)
+//@   invariant loop 1 registered_in_place_or_in_a_fresh_array: (fresh(w.matches) || (arr(w.matches) == old(arr(w.matches)) && off(w.matches) == old(off(w.matches)) && cap(w.matches) == old(cap(w.matches)) && off(w.matches) + uintptr(len(w.matches)) >= old(off(w.matches)) + uintptr(old(len(w.matches))))) && len(w.matches) >= old(len(w.matches))
+//@   decreases loop 1 len(values) - rangeindex
+//@   ensures same_builder: result == w && w.curMatch == old(w.curMatch)
+//@   ensures no_values_no_change: len(values) == 0 ==> w.matches == old(w.matches) && w.defaultReturns == old(w.defaultReturns)
+//@   ensures pending_condition_registered_exactly_once: old(w.curMatch) != nil && len(values) > 0 ==> len(w.matches) == old(len(w.matches)) + 1 && w.defaultReturns == old(w.defaultReturns)
+//@   ensures otherwise_conditions_untouched: old(w.curMatch) == nil ==> w.matches == old(w.matches)
+//@   ensures existing_default_extended_not_replaced: old(w.curMatch) == nil && old(w.defaultReturns) != nil ==> w.defaultReturns == old(w.defaultReturns)
+//@   panics_only_if values_rejected: true
 //@ func (m *DefMocker) Apply
 //@   props C12 C01
 //@   requires receiver: m != nil && m.baseMocker != nil
